@@ -862,6 +862,8 @@ def value_attr(I, obj, name):
             return "builtins"
         if obj.name == "dict" and name == "fromkeys":
             return Builtin("dict.fromkeys", lambda keys, value=None: {_key(k_): value for k_ in iterate(I, keys)})
+        if obj.name == "str" and name == "maketrans":
+            return Builtin("str.maketrans", lambda *a: str.maketrans(*[_pyfmt(x) for x in a]))      # a static method
         if obj.name in ("int", "float") and name in ("fromhex", "from_bytes"):
             raise AnalysisError(f"{obj.name}.{name} is not modelled")
         if not name.startswith("__"):
